@@ -59,6 +59,9 @@ pub enum Step {
     VoteResp { from: u8, granted: bool, dterm: i8 },
     AppendResp { from: u8, ok: bool, back: u8, dterm: i8 },
     Propose { payload: u32 },
+    /// the other kind of entry a leader accepts: a codebook replacement
+    /// (`propose_codebook_replace`)
+    ProposeCodebook { version: u16 },
     Tick,
     /// the node receives and installs a snapshot of `n` entries (built by a real donor
     /// node through the public create_snapshot) whose last term is current+dterm
@@ -466,6 +469,24 @@ impl<'a> Trial<'a> {
                     }
                 }
             },
+            Step::ProposeCodebook { version } => {
+                let snap = tensor_chain::codebook::GlobalCodebookSnapshot::new(4, Vec::new(), u64::from(*version));
+                let r = node.propose_codebook_replace(snap);
+                self.ctx.event(&format!("propose_codebook_replace -> {:?}", r.as_ref().map_err(|e| e.to_string())));
+                if let Ok(idx) = r {
+                    if !self.ctx.is_dead(NODE) {
+                        // "every log entry it had ... accepted as leader"
+                        let now = self.node_image();
+                        let keep = lcp(&self.acked, &now.log);
+                        self.acked.truncate(keep);
+                        let m = (idx as usize).min(now.log.len());
+                        if m > self.acked.len() {
+                            self.acked = now.log[..m].to_vec();
+                        }
+                        self.ctx.probe("codebook_entry_accepted_as_leader");
+                    }
+                }
+            },
             Step::Tick => {
                 let _ = crate::net::now_or_never(node.tick_async());
             },
@@ -826,7 +847,11 @@ fn gen_steps(rng: &mut Rng, n: usize, faults: bool) -> Vec<Step> {
         } else if r < 78 {
             Step::AppendResp { from: rng.below(2) as u8, ok: rng.chance(3, 4), back: rng.below(3) as u8, dterm: if rng.chance(1, 8) { 1 } else { 0 } }
         } else if r < 90 {
-            Step::Propose { payload: rng.below(1000) as u32 }
+            if rng.chance(1, 6) {
+                Step::ProposeCodebook { version: rng.below(50) as u16 }
+            } else {
+                Step::Propose { payload: rng.below(1000) as u32 }
+            }
         } else if r < 91 {
             Step::InstallSnapshot { n: rng.below(5) as u8, dterm: rng.range(0, 1) as i8 }
         } else if r < 93 {
